@@ -70,6 +70,7 @@ func validEntries(p *Prog) []*ssa.Function {
 func runC02Loop(c *Ctx) {
 	p := c.P
 	c.Rule("C02-LOOP", "every loop on the validation path whose body can produce a clause (walker loops over fields, entries, elements, rule items, groups) leaves only through its header: no break, return, goto or panic in the body, so one failure never ends the walk", 9)
+	runShiftWidth(c, "C02-LOOP")
 	prod := clauseProducers(p)
 	// functions on the validation path, excluding what is only reachable through rule functions
 	inRule := map[*ssa.Function]bool{}
@@ -535,4 +536,97 @@ func edgeImplies(lenCall *ssa.Call, b *ssa.BasicBlock, want bool) bool {
 		}
 	}
 	return false
+}
+
+// runShiftWidth: a set of fields / elements / kinds kept as bits of an integer (`mask & (1 << i)`) holds
+// only as many members as the integer is wide: for i >= 64 the shift yields 0, the test is silently false
+// and every field from the 65th on is skipped (never validated, never overridden, never dumped). Every
+// shift by a non-constant count must be dominated by a test that bounds the count below the width of the
+// shifted type.
+func runShiftWidth(c *Ctx, rule string) {
+	p := c.P
+	var bad []string
+	n := 0
+	for _, fn := range p.Funcs {
+		if fn.Pkg == nil || !strings.HasPrefix(fn.Pkg.Pkg.Path(), ModPath) {
+			continue
+		}
+		for _, b := range fn.Blocks {
+			for _, ins := range b.Instrs {
+				bo, ok := ins.(*ssa.BinOp)
+				if !ok || bo.Op != token.SHL {
+					continue
+				}
+				if _, isC := constInt(bo.Y); isC {
+					continue
+				}
+				n++
+				width := int64(64)
+				if bt, ok := bo.Type().Underlying().(*types.Basic); ok {
+					switch bt.Kind() {
+					case types.Int8, types.Uint8:
+						width = 8
+					case types.Int16, types.Uint16:
+						width = 16
+					case types.Int32, types.Uint32:
+						width = 32
+					case types.Int, types.Uint, types.Uintptr:
+						width = 32 // the narrowest platform
+					}
+				}
+				count := bo.Y
+				if cv, ok := count.(*ssa.Convert); ok {
+					count = cv.X
+				}
+				bounded := false
+				for d := b; d != nil && !bounded; d = d.Idom() {
+					for _, pr := range d.Preds {
+						if len(d.Preds) != 1 {
+							break
+						}
+						iff, ok := pr.Instrs[len(pr.Instrs)-1].(*ssa.If)
+						if !ok {
+							continue
+						}
+						cmp, ok := iff.Cond.(*ssa.BinOp)
+						if !ok {
+							continue
+						}
+						onTrue := pr.Succs[0] == d
+						x, y := cmp.X, cmp.Y
+						if cv, ok := x.(*ssa.Convert); ok {
+							x = cv.X
+						}
+						if cv, ok := y.(*ssa.Convert); ok {
+							y = cv.X
+						}
+						// count < K / count <= K on the true edge, or count >= K / count > K on the false edge
+						if k, isK := constInt(y); isK && x == count {
+							switch {
+							case cmp.Op == token.LSS && onTrue && k <= width,
+								cmp.Op == token.LEQ && onTrue && k < width,
+								cmp.Op == token.GEQ && !onTrue && k <= width,
+								cmp.Op == token.GTR && !onTrue && k < width:
+								bounded = true
+							}
+						}
+						if k, isK := constInt(x); isK && y == count {
+							switch {
+							case cmp.Op == token.GTR && onTrue && k <= width,
+								cmp.Op == token.GEQ && onTrue && k < width,
+								cmp.Op == token.LEQ && !onTrue && k <= width,
+								cmp.Op == token.LSS && !onTrue && k < width:
+								bounded = true
+							}
+						}
+					}
+				}
+				if !bounded {
+					bad = append(bad, fmt.Sprintf("%s: %s shifts by a count that is not bounded below the %d bits of the shifted value (%s): a bit set indexed by a field/element number loses every member from the %dth on — those fields are silently skipped", p.Pos(bo.Pos()), fnName(fn), width, bo.Y.Name(), width+1))
+				}
+			}
+		}
+	}
+	c.Sites += n
+	c.Check(len(bad) == 0, rule, "repo", "bit-index-width", token.NoPos, fmt.Sprintf("%d shifts by a non-constant count, each bounded below the width of the shifted value", n), uniqJoin(bad, 3))
 }
